@@ -23,7 +23,8 @@ void vh_nd_arr(void* p, size_t elsize, size_t count, const char* name) {
     for (i = 0; i < count; i++) {
         unsigned long long bits = 0;
         snprintf(buf, sizeof buf, "%s[%lu]", name, (unsigned long)i);
-        if (!vh_lookup(buf, &bits)) { snprintf(buf, sizeof buf, "%s[%luL]", name, (unsigned long)i); vh_lookup(buf, &bits); }
+        if (!vh_lookup(buf, &bits)) { snprintf(buf, sizeof buf, "%s[%lul]", name, (unsigned long)i);
+            if (!vh_lookup(buf, &bits)) { snprintf(buf, sizeof buf, "%s[%luul]", name, (unsigned long)i); vh_lookup(buf, &bits); } }
         memset((char*)p + i * elsize, 0, elsize);
         memcpy((char*)p + i * elsize, &bits, elsize < sizeof(bits) ? elsize : sizeof(bits));
     }
